@@ -12,12 +12,12 @@ CLAIMED = {
             "against an independent parse of data/*.dat and of the #defines; the space is finite so nothing is sampled.",
             "trusts glibc strtod/printf, meson build, the harness' own 150-line parser; group line macros are left to C10, Auger to C11",
             "DESIGN.md 2/C01"),
-    "C02": ("structured enumeration of every knot interval + seeded interior fractions + end-straddling points against an independent cubic-spline evaluation (differential oracle)",
+    "C02": ("structured enumeration of every knot interval + seeded interior fractions + end-straddling points + seeded interleaved call sequences, each call with and without an error slot, against an independent cubic-spline evaluation (differential oracle)",
             "Every interval of every interpolation table (1.7M evaluations incl. Compton profiles per shell and, in configuration B, the Kissel "
             "sub-shell tables with their edge/extension region) is compared to 1e-12 with a textbook spline over independently parsed knots; "
             "outside the range an error is required.",
-            "same libm as the library (log/exp), knots rounded to the 11 digits the build keeps; intervals next to the one non-monotone abscissa step "
-            "(CS_Photo Z=96) excluded; the 1e-7 guard band above the last knot accepts both outcomes",
+            "same libm as the library (log/exp), knots rounded to the 11 digits the build keeps; the one non-monotone abscissa step of the shipped data "
+            "(CS_Photo Z=96) is evaluated by the same textbook bisection; the 1e-7 guard band above the last knot accepts both outcomes",
             "DESIGN.md 2/C02"),
     "C03": ("generated API sweep: every exported function x exhaustive discrete classes x structured/seeded continuous, string and crystal arguments, each call with a fresh / absent / pre-set error slot, generic contract oracle",
             "A universal call interpreter generated from the header prototypes executes ~350k (quick) calls under ASan+UBSan in both data "
@@ -28,7 +28,8 @@ CLAIMED = {
     "C04": ("sanitizer-instrumented generated testing: API sweep with per-call heap balance + LeakSanitizer, rapidcheck call histories with an object pool, libFuzzer targets with in-target oracles",
             "The C03 sweep runs with an exact per-call heap balance (confirmed by LeakSanitizer), rapidcheck generates histories over the allocating "
             "APIs (objects pooled, scribbled, released in generated order, arrays grown, files read) ending in full release, and libFuzzer drives the "
-            "formula parser and the crystal file reader with semantic + heap + descriptor oracles; any ASan/UBSan/LSan report is a violation.",
+            "formula parser, the crystal file reader and - through a byte decoder in front of the universal call interpreter - every exported function "
+            "with semantic + heap + descriptor oracles; any ASan/UBSan/LSan report is a violation.",
             "allocation-failure injection not done; libFuzzer campaigns are bounded by -runs; sanitizer runtimes trusted",
             "DESIGN.md 2/C04"),
     "C05": ("structured enumeration (all Z, photo-table knots, edges, range ends, angle grids) + seeded draws; metamorphic/defining identities evaluated from public components",
@@ -41,7 +42,7 @@ CLAIMED = {
             "mass-fraction mixture rule on Hypothesis-generated compounds in both data configurations, including the full failure matrix.",
             "composition as returned by the library's parser/NIST lookup is taken as given (C07/C15); elemental functions by C02/C05",
             "DESIGN.md 2/C06"),
-    "C07": ("exhaustive singles/pairs + Hypothesis grammar generation with algebraic rewrites (metamorphic) + mutation-generated malformed strings with a three-way reference recogniser",
+    "C07": ("exhaustive singles/pairs + Hypothesis grammar generation with algebraic rewrites (metamorphic) + mutation-generated malformed strings with a three-way reference recogniser + coverage-guided differential fuzzing (libFuzzer) against a C++ port of that recogniser",
             "The parser result is compared (1e-12) with an exact Fraction expansion for every single symbol, all 107^2 pairs and Hypothesis-generated "
             "formulas, must be invariant under term permutation and group expansion, must reject the listed malformed classes, must leave the "
             "numeric locale untouched, and add_compound_data must give the ascending weighted union.",
@@ -57,8 +58,8 @@ CLAIMED = {
             "photo x share x yield x rate recomputed from the public primitives; errors required below the edge / for unavailable inputs.",
             "primitives trusted (C01/C02); exact zero share accepts 0.0 with or without error; energies exactly on an edge are not generated",
             "DESIGN.md 2/C09"),
-    "C12": ("Hypothesis property-based testing over (E, theta, phi) with metamorphic/relational oracles (quadrature, azimuthal average, limits, symmetry) + full special-value grid",
-            "Eight relations between the public closed-form functions are checked on Hypothesis-generated energies (1e-6..1e6 keV, log-uniform) and "
+    "C12": ("Hypothesis property-based testing over (E, theta, phi) with metamorphic/relational oracles (quadrature, azimuthal average, limits, symmetry, call-order independence) + full special-value grid",
+            "Nine relations between the public closed-form functions are checked on Hypothesis-generated energies (1e-6..1e6 keV, log-uniform) and "
             "angles (+-4pi) and on the full grid of special values; failures are shrunk to a minimal (E, theta, phi).",
             "Gauss-Legendre quadrature self-checked by node doubling (unconverged = inconclusive); libm shared with the library",
             "DESIGN.md 2/C12"),
@@ -88,7 +89,7 @@ CLAIMED = {
             "and out-of-range indices), compared field by field, checked for well-formedness, and copies are scribbled over and freed in all orders.",
             "IUPAC symbol table embedded in the harness; macro-name normalisation rule derived from the tree (180/180 match)",
             "DESIGN.md 2/C15"),
-    "C16": ("generated call histories (seeded, with bursts of related calls) executed in-process vs each step alone in a freshly forked process (differential), plus invariants over the history: data-segment checksum, locale, cwd, streams, kept error objects",
+    "C16": ("generated call histories (seeded, with bursts of related calls and switch sweeps) executed in-process vs each step alone in a freshly forked process (differential); the whole argument sweep of every function as one history in two orders (metamorphic: order independence); invariants over every history: data-segment checksum, locale, cwd, streams, kept error objects",
             "Every step of every generated history must return the bit-identical encoded result it returns in a process that never called the "
             "library before; an FNV hash over all data/bss/rodata sections contributed by libxrl.a (taken from the link map, ~16 MB) must be equal "
             "before and after, as must locale strings, working directory, stdout/stderr (deprecation lines excepted) and every error object "
@@ -96,7 +97,8 @@ CLAIMED = {
             "insertions into the built-in crystal collection are exempt by the property and not generated; reference process = child forked from a pristine parent",
             "DESIGN.md 2/C16"),
     "C17": ("generated thread mixes under ThreadSanitizer (happens-before race detection) with a serial-equivalence oracle and a link-level setlocale observer",
-            "8/12/16 threads execute generated call lists (incl. failing, parsing, allocating and identical simultaneous queries) behind a barrier on "
+            "8/12/16 threads execute generated call lists (incl. failing, parsing, allocating and identical simultaneous queries, thread-private crystal "
+            "collections) and 4 threads execute the full argument sweep of every function in lockstep, behind a barrier on "
             "a TSan build under several seeded yield patterns: no TSan report, every call's result identical to the serial run, no locale change "
             "while workers are live.",
             "TSan cannot see inside uninstrumented libc (only setlocale is observed separately); liveness not addressed",
